@@ -216,7 +216,9 @@ def r1(ctx: Ctx) -> None:
     ground = ("expr", ("c", ("a", ("a", ("self",), "_ground_regions"), "append"), (v,), ()))
     spec = ("expr", ("c", ("a", ("a", ("self",), "_specialized_regions"), "append"), (v,), ()))
     from framelint.canon import mk_eq
-    cond = mk_eq(("a", v, "region"), ("g", "KW_GROUND"))
+    from framelint.canon import k_str
+    from .common import kw_value
+    cond = mk_eq(("a", v, "region"), k_str(kw_value(ctx, "KW_GROUND")))
     ok = len(body) == 1 and body[0][0] == "if" and ((body[0][1] == cond and body[0][2] == (ground,) and body[0][3] == (spec,)))
     if not ok:
         ctx.report(fi.where, "partition-back " + "; ".join(show(x) for x in body),
